@@ -14,7 +14,10 @@ import vlib
 from checks.c01 import full_projection, allene_or_other_stereo
 
 CENTRES = ['[C@](F)(Cl)(Br)I', '[C@@](F)(Cl)(Br)I', '[C@H](F)(Cl)Br', '[C@@H](F)(Cl)Br', 'F[C@H](Cl)Br', 'F[C@]([H])(Cl)Br', 'F[C@@](Cl)([H])Br',
-           'C[C@H](N)O', 'N[C@@H](C)C(=O)O', 'C[C@]1(F)CCCO1', 'C[C@@H]1CCCO1', 'O1CC[C@@]2(C1)CCCN2', 'C[C@H](O)c1ccccc1', '[2H][C@](F)(Cl)Br']
+           'C[C@H](N)O', 'N[C@@H](C)C(=O)O', 'C[C@]1(F)CCCO1', 'C[C@@H]1CCCO1', 'O1CC[C@@]2(C1)CCCN2', 'C[C@H](O)c1ccccc1', '[2H][C@](F)(Cl)Br',
+           # a hydrogen-bearing centre that opens a later component; centres that are stereogenic only through the configuration of their arms
+           'CC.[C@H](F)(Cl)Br', 'CC.[C@@H](F)(Cl)Br', '[Na+].[C@@H](C)(O)C([O-])=O', 'O.[C@@H](N)(C)C(=O)O', 'Cl.[C@H](N)(C)C(=O)O.O', 'C/C=C/[C@H](O)/C=C\\C', 'C/C=C/[C@@H](O)/C=C\\C',
+           '[C@H](O)(/C=C/C)/C=C\\C', 'C/C=C/[C@H](N)/C=C\\C', 'C(\\C)=C/[C@](C)(N)/C=C\\C', 'Cl/C=C/[C@H](O)/C=C\\Cl']
 DOUBLES = ['F/C(Cl)=C(/Br)I', 'F/C(Cl)=C(\\Br)I', 'F/C=C/Cl', 'F/C=C\\Cl', 'F/C(Cl)=C/Br', '[H]/C(F)=C(/[H])Cl', 'C/C=C/C=C/C', 'C/C=N/O', 'C/C=C=C=C/C',
            'F/C(Cl)=C=C=C(/Br)I', 'C1CCC/C=C/CCCC1']
 ALLENES = ['FC(Cl)=[C@]=C(Br)I', 'FC(Cl)=[C@@]=C(Br)I', 'FC=[C@]=CCl', 'CC=[C@@]=CF', 'FC([H])=[C@]=C([H])Cl']
